@@ -113,4 +113,85 @@ def text12 : K12 String → String
   | .vals xs => cat (xs.map (rj 10))
   | .ints xs => cat (xs.map (rjn 10))
 
+/-! ## ADF11 -/
+
+/-- `re.split(r"\s{2,}", ·)`: a run of two or more blanks separates, a single blank stays inside the part
+(`fuel` ≥ length) -/
+def split2Go : Nat → Cs → Cs → List Cs
+  | 0, _, cur => [cur.reverse]
+  | f + 1, cs, cur =>
+    match cs with
+    | [] => [cur.reverse]
+    | c :: r =>
+      if isWs c then
+        let run := (c :: r).takeWhile isWs
+        let rest := (c :: r).dropWhile isWs
+        if run.length ≥ 2 then cur.reverse :: split2Go f rest [] else split2Go f r (c :: cur)
+      else split2Go f r (c :: cur)
+
+/-- `re.split(r"\s{2,}", s.strip())` -/
+def splitBlank2 (s : String) : List Cs :=
+  let t := trim s.toList
+  split2Go (t.length + 1) t []
+
+def stripSlash (cs : Cs) : Cs := ((cs.dropWhile (· == '/')).reverse.dropWhile (· == '/')).reverse
+
+def startsDashes2 (cs : Cs) : Bool := match cs with | '-' :: '-' :: _ => true | _ => false
+
+def startsWithCs (p cs : Cs) : Bool := p.isPrefixOf cs
+
+/-- leftmost match of `Z1\s*=*\s*[0-9]+\s*`: the matched text -/
+def findZ1 : Cs → Option Cs
+  | [] => none
+  | c :: r =>
+    let here : Option Cs :=
+      if c == 'Z' && r.head? == some '1' then
+        let a := r.tail
+        let ws1 := a.takeWhile isWs; let a := a.dropWhile isWs
+        let eqs := a.takeWhile (· == '='); let a := a.dropWhile (· == '=')
+        let ws2 := a.takeWhile isWs; let a := a.dropWhile isWs
+        let ds := a.takeWhile isDig; let a := a.dropWhile isDig
+        let ws3 := a.takeWhile isWs
+        if ds = [] then none else some (['Z', '1'] ++ ws1 ++ eqs ++ ws2 ++ ds ++ ws3)
+      else none
+    match here with
+    | some m => some m
+    | none => findZ1 r
+
+/-- `int(re.sub(r"Z1[\s*=]", "", z1_pos))` -/
+def z1Value (m : Cs) : Option Nat :=
+  let body := match m with
+    | 'Z' :: '1' :: x :: r => if isWs x || x == '*' || x == '=' then r else m
+    | _ => m
+  pyInt body
+
+def lex11 : Lex11 String String String where
+  header := fun s =>
+    match splitBlank2 s with
+    | a :: b :: c :: d :: e :: nm :: _proj :: _ =>
+      match pyInt a, pyInt b, pyInt c, pyInt d, pyInt e with
+      | some z, some nNe, some nTe, some zmin, some zmax =>
+        some { z := z, nNe := nNe, nTe := nTe, zmin := zmin, zmax := zmax,
+               name := (String.ofList (stripSlash nm)).toLower }
+      | _, _, _, _, _ => none
+    | _ => none
+  digit0 := fun s => match skipWs s.toList with | c :: _ => isDig c | [] => false
+  dash := fun s => startsDashes2 (skipWs s.toList)
+  cdash := fun s => startsDashes2 ((skipWs s.toList).dropWhile (· == 'C'))
+  c1dash := fun s => match skipWs s.toList with | 'C' :: r => startsDashes2 r | _ => false
+  c01dash := fun s => match skipWs s.toList with | 'C' :: r => startsDashes2 r | r => startsDashes2 r
+  conly := fun s => skipWs s.toList == ['C']
+  z1 := fun s => (findZ1 s.toList).map z1Value
+  toks := floatToks
+
+def text11 : K11 String String → String
+  | .hdr h => rjn 5 h.z ++ rjn 5 h.nNe ++ rjn 5 h.nTe ++ rjn 5 h.zmin ++ rjn 5 h.zmax ++ "     /"
+      ++ lj 19 h.name.toUpper ++ "/" ++ lj 20 "GCR PROJECT"
+  | .dashes nC (some z) => String.ofList (List.replicate nC 'C') ++ dashes (20 - nC)
+      ++ "/ IPRT= 1  / IGRD= 1  /--------/ Z1=" ++ rjn 2 z ++ "   / DATE= 17/01/97"
+  | .dashes nC none => String.ofList (List.replicate nC 'C') ++ dashes (80 - nC)
+  | .nums xs => cat (xs.map (rj 10))
+  | .cOnly => "C"
+  | .text => "C  EFFECTIVE COEFFICIENTS, GENERATED FOR TESTING; IGRD= 2 Z1 = X"
+
 end Cherab.Adf.Text
